@@ -600,6 +600,11 @@ where
             std::hash::BuildHasherDefault<nohash_hasher::NoHashHasher<DltChar4>>,
         >,
          last_lcw_refresh_index: &mut u32| {
+            #[cfg(adlt_verif)]
+            let force_refresh = force_refresh
+                || last_regular_refresh_index
+                    + adlt_verif_seam::knobs::lc_regular_refresh_interval()
+                    < last_msg_index;
             if force_refresh || last_regular_refresh_index + 100_000 < last_msg_index {
                 // update all marked lifecycles:
                 let mut nr_lcs_to_update = lcs_to_refresh.len();
